@@ -4,6 +4,7 @@ import FP.Props.C16
 #print axioms FP.Props.C16.spec_names_and_arities_reachable
 #print axioms FP.Props.C16.bound_to_same_name
 #print axioms FP.Props.C16.no_extra_arities
+#print axioms FP.Props.C16.experimental_reachable
 #print axioms FP.Props.C16.unimplemented_explicit
 #print axioms FP.Props.C16.names_unique
 #print axioms FP.Props.C16.experimental_preserves_base
